@@ -324,9 +324,11 @@ impl StorageEngine {
             StoredValue::new(value)
         };
         
-        // Track expiration if needed
+        // Track expiration if needed (an overwrite without TTL forgets the old one)
         if let Some(expires_at) = stored_value.metadata.expires_at {
             shard_guard.expiring_keys.insert(key.clone(), expires_at);
+        } else {
+            shard_guard.expiring_keys.remove(&key);
         }
         
         // CRITICAL FIX: Mark as modified BEFORE data change to fix WATCH race condition
@@ -2583,6 +2585,23 @@ impl StorageEngine {
                     if !expired_keys.is_empty() {
                         let mut shard_guard = shard.write().unwrap();
                         for key in expired_keys {
+                            // The index entry may be stale: since it was collected the key can
+                            // have been overwritten, persisted, re-created or given a later
+                            // deadline. Only what the stored value itself says counts.
+                            match shard_guard.data.get(&key).map(|stored_value| {
+                                (stored_value.is_expired(), stored_value.metadata.expires_at)
+                            }) {
+                                Some((true, _)) => {}
+                                Some((false, Some(expires_at))) => {
+                                    shard_guard.expiring_keys.insert(key.clone(), expires_at);
+                                    continue;
+                                }
+                                Some((false, None)) | None => {
+                                    shard_guard.expiring_keys.remove(&key);
+                                    continue;
+                                }
+                            }
+                            
                             if let Some(stored_value) = shard_guard.data.remove(&key) {
                                 shard_guard.expiring_keys.remove(&key);
                                 
